@@ -354,6 +354,44 @@ def run_filter(ctx):
         ctx.violation("C16:keyset:private-export-of-public-ok", "private export of a set with a public-only key did not fail", {})
 
 
+def run_jwk_members_kept(ctx):
+    """Import of a JWK keeps the members that are not key material (kid, use, key_ops, alg, x5t ...) for every way a JWK can be
+    written -- in particular an RSA private key that carries d without the CRT members, which the library completes."""
+    ec_k = ec.generate_private_key(ec.SECP384R1())
+    ed_k = ed25519.Ed25519PrivateKey.generate()
+    rsa_full = RSAKey.import_key(rsa_pool_cached(ctx)[0]).as_dict(True)
+    forms = {"RSA:full": dict(rsa_full), "RSA:d-only": {k: v for k, v in rsa_full.items() if k not in ("p", "q", "dp", "dq", "qi")},
+             "RSA:public": RSAKey.import_key(rsa_pool_cached(ctx)[0]).as_dict(False), "EC:private": ECKey.import_key(ec_k).as_dict(True),
+             "EC:public": ECKey.import_key(ec_k).as_dict(False), "OKP:private": OKPKey.import_key(ed_k).as_dict(True), "oct": OctKey.generate_key().as_dict()}
+    extras = [{"kid": "my-kid"}, {"kid": "my-kid", "use": "sig"}, {"use": "enc", "key_ops": ["decrypt", "unwrapKey"]}, {"alg": "RS256", "kid": "k"},
+              {"kid": "", "use": "sig"}, {"x5t": "abc", "kid": "z"}]
+    for name, base in forms.items():
+        base = {k: v for k, v in base.items() if k != "kid"}
+        for extra in extras:
+            d = dict(base, **extra)
+            case = {"jwk_form": name, "extra_members": extra}
+            ctx.case(case, ("jwk-members", name, json.dumps(extra, sort_keys=True)), "jwk-members:%s" % name)
+            try:
+                key = JsonWebKey.import_key(dict(d))
+                private = name.endswith(("full", "d-only", "private")) or name == "oct"
+                out = key.as_dict(is_private=True) if private else key.as_dict()
+            except Exception as e:  # noqa: BLE001
+                if extra.get("use") == "enc" or True:
+                    ctx.violation("C16:jwk-members:import-raises:%s" % type(e).__name__, "a JWK with non-key members could not be imported and exported", case)
+                continue
+            for m_, v in extra.items():
+                if m_ == "kid" and v == "":
+                    continue          # an empty kid is replaced by the thumbprint on export
+                if out.get(m_) != v:
+                    ctx.violation("C16:jwk-members:lost:%s:%s" % (name.split(":")[0], m_), "member %r of the imported JWK is not in its export (%r instead of %r)" % (m_, out.get(m_), v), case)
+            if extra.get("kid") and key.kid != extra["kid"]:
+                ctx.violation("C16:jwk-members:kid-attribute", "key.kid is %r after importing a JWK with kid %r" % (key.kid, extra["kid"]), case)
+            # the key material is untouched by the extra members
+            for m_ in base:
+                if m_ in out and out[m_] != base[m_] and m_ not in ("p", "q", "dp", "dq", "qi"):
+                    ctx.violation("C16:jwk-members:material-changed:%s" % m_, "key member %r changed through import and export" % m_, case)
+
+
 def run_key_histories(ctx):
     """One key OBJECT through a history of exports, in every order: each export equals the one a fresh object gives (an export
     is a function of the key, not of what was asked of the object before)."""
@@ -483,6 +521,7 @@ def run(ctx):
     run_filter(ctx)
     run_key_sets(ctx)
     run_key_histories(ctx)
+    run_jwk_members_kept(ctx)
 
 
 def run_case(ctx, case):
